@@ -1,5 +1,6 @@
 import Svgbob.Proofs.DocSafe
 import Svgbob.Proofs.Decode
+import Svgbob.Proofs.XmlWf
 import Svgbob.Gen.Consts
 /-!
 # C02 — the output is one well-formed SVG/XML document that round-trips the text
@@ -9,11 +10,13 @@ escaping and sauron's serializer. The model is tied to the code byte for byte by
 correspondence (`tools/backend.py`): the implementation's own fragments are rendered by the model
 and the strings compared.
 
-What is proved here is the *lexical* half of well-formedness for all inputs: every text leaf is
-safe character data, every attribute value is free of `"`, `<`, `&`, every character written is one
-XML can represent, and decoding the character data gives back the input characters. The
-*structural* half (tags are balanced) holds by construction of `Node.render` from a tree; it is
-checked on the implementation's output with a conforming parser (expat) by the oracle.
+Proved for all inputs: the serialized document is accepted by the XML recognizer of
+`Spec/Xml.lean` (`document_is_well_formed`: balanced and matching tags, attribute names unique per
+tag, quoted attribute values without `<`, `&`, `"`, character data made of XML characters and
+well-formed references only); every text leaf is safe character data; decoding the character data
+gives back the input characters. The recognizer accepts a subset of XML 1.0 (see its header);
+that it agrees with a conforming parser (expat) is checked on the implementation's output by the
+oracle, which runs both.
 -/
 namespace Svgbob.C02
 open Svgbob
@@ -38,6 +41,32 @@ theorem document_is_lexically_safe (len : List Char → Nat) (cfg : Cfg) (cells 
     (css : List (List Char × List Char)) (accepted : List Frag) (groups : List (List Frag)) :
     (svgRoot len cfg cells css accepted groups).Safe :=
   svgRoot_safe len cfg cells css accepted groups
+
+/-- **the whole serialized document is one well-formed XML element**, for every configuration,
+cell set, legend, fragment list, and for both the compact and the indented serializer -/
+theorem document_is_well_formed (len : List Char → Nat) (cfg : Cfg) (cells : List (Cell × Char))
+    (css : List (List Char × List Char)) (accepted : List Frag) (groups : List (List Frag))
+    (den : Nat) (pretty : Bool) :
+    Xml.WellFormed ((svgRoot len cfg cells css accepted groups).render den pretty 0) := by
+  have hsafe := svgRoot_safe len cfg cells css accepted groups
+  have hel : (svgRoot len cfg cells css accepted groups).isText = false := by
+    unfold svgRoot; simp only; split <;> rfl
+  obtain ⟨f, hf⟩ := Xml.element_render den pretty _ 0 [] hsafe hel
+  exact ⟨f, [], by simpa using hf, rfl⟩
+
+/-- the executable recognizer is sound for the `WellFormed` predicate (it is the one the oracle
+runs on the implementation's output next to expat) -/
+theorem recognizer_sound (s : List Char) (h : Xml.wellFormed s = true) : Xml.WellFormed s :=
+  Xml.wellFormed_sound s h
+
+/-! the recognizer accepts a balanced document and rejects mismatched tags, a duplicate attribute,
+raw markup in character data and a quote inside a value (tests, labelled as tests) -/
+example : Xml.wellFormed "<svg a=\"1\"><g>x &amp; y</g></svg>".toList = true := by decide +kernel
+example : Xml.wellFormed "<svg><g></svg></g>".toList = false := by decide +kernel
+example : Xml.wellFormed "<svg a=\"1\" a=\"2\"></svg>".toList = false := by decide +kernel
+example : Xml.wellFormed "<svg>a & b</svg>".toList = false := by decide +kernel
+example : Xml.wellFormed "<svg>a < b</svg>".toList = false := by decide +kernel
+example : Xml.wellFormed "<svg x=\"a\"b\"></svg>".toList = false := by decide +kernel
 
 /-- an attribute value never contains a quote, `<` or `&` -/
 theorem attribute_values_stay_inside_their_quotes (den : Nat) (v : AttrVal) (h : v.Safe) :
